@@ -2,6 +2,7 @@
 C05, C06, C12, C15)."""
 import re
 
+from .analysis import strip_through
 from .analysis import Origins, fmt_terms
 
 AT = "functions::ArgumentType"
@@ -176,8 +177,16 @@ def _is_boxed_ctor(lib, fn):
     if fb is None or fb.arg_count != 0:
         return False
     names = [t["callee"] for _, t in fb.calls()]
-    return sorted(names) in (["std::boxed::Box::<T>::new", "std::default::Default::default"],) and \
-        all(x[0] == "call" and x[1] == "std::default::Default::default" for x in Origins(fb, lib).of_local(0))
+    if sorted(names) == ["std::boxed::Box::<T>::new", "std::default::Default::default"]:
+        return all(x[0] == "call" and x[1] == "std::default::Default::default" for x in Origins(fb, lib).of_local(0))
+    # Box::<F>::default(): std's `impl<T: Default> Default for Box<T>` is Box::new(T::default())
+    if names == ["std::default::Default::default"]:
+        t = [t for _, t in fb.calls()][0]
+        a = (t.get("callee_args") or [""])[0]
+        import re as _re
+        return bool(_re.fullmatch(r"std::boxed::Box<[A-Za-z_][A-Za-z0-9_]*>", a)) and \
+            all(strip_through(x)[0] in ("call", "cast") for x in Origins(fb, lib).of_local(0))
+    return False
 
 
 def _default_is_new(lib, ty):
